@@ -11,7 +11,7 @@ T = {
          "exact oracle only on integer-lattice inputs of bounded size; tolerance 1e-9*scale + 2^12 ulp; split edges (finding F2, frequent form repaired by eb81dbb) are followed by VCell.NewPoint / VCellTrace to the end of the history; residual F2 classified by VCellTrace ('discord')", "DESIGN.md §5 C01"),
  "C02": ("VCell lattice pipeline (1D/2D/3D, periodic/reflective, anisotropic, offsets, scales 1e-6..2e14): every measure > 0 and the sum = box measure; pipeline F: VTessTrace.VolChecks on quantised volumes of seeded float inputs; design level: VMeasure + VTileTrace - the EXACT volumes (rational, evaluated by TLC modulo three primes) of the cells the specification builds sum to the box measure for every lattice input, whatever the order of equidistant candidates",
          "sum identity checked per embedded run; quantisation 2^-26", "DESIGN.md §5 C02"),
- "C03": ("VTess model-checked (StoredOnce, StoredAtMostOnce, ListedBy*, all masks, reciprocal inputs incl. self-images); recorded non-symmetric face integrals of both sides validated by VTessTrace.RecipChecks on quantised areas/centroids/normals; numeric check at the 1e-9 threshold and antisymmetric flux in the harness",
+ "C03": ("VTess model-checked (StoredOnce, StoredAtMostOnce, ListedBy*, all masks, reciprocal inputs incl. self-images); recorded non-symmetric face integrals of both sides validated by VTessTrace.RecipChecks on quantised areas/centroids/normals; numeric check at the 1e-9 threshold and antisymmetric flux in the harness; design level: VMeasure + VTileTrace.RecipFails - every positive-area face of every cell the specification builds has a mirror face with the opposite exact area vector and the same exact centroid (lattice inputs incl. periodic self-images)",
          "float inputs in general position + exactly snapping lattices; quantisation 2^-26 with slack 2", "DESIGN.md §5 C03"),
  "C04": ("lattice pipeline: normals vs spec normal -N/|N|, closure and divergence identities per cell on every embedding; pipeline F: the same identities on seeded float inputs under masks (tess recorder)",
          "identities hold up to the stated tolerance", "DESIGN.md §5 C04"),
